@@ -596,6 +596,29 @@ func runEngProp(prop string) runner {
 				rep.sample(map[string]interface{}{"grl": s.grl(), "outcome": obs.Outcome, "cycles": passes, "fired": fired})
 			}
 		}
+		if prop == "C01" || prop == "C02" {
+			// rule sets over JSON facts (implementation-side oracle: fired => true from scratch; nil => nothing left to fire)
+			np := 60
+			if tier == "thorough" {
+				np = 3000
+			}
+			if prop == "C01" {
+				w := d25Witness()
+				rep.Evaluations++
+				rep.count("json fact runs: witness of D25")
+				if msg := runJSONRun(w); msg != "" {
+					rep.failKey(d25Key, msg, w)
+				}
+			}
+			for i := 0; i < np; i++ {
+				jr := genJSONRun(p.fork())
+				rep.Evaluations++
+				rep.count("json fact runs")
+				if msg := runJSONRun(jr); msg != "" {
+					rep.fail(msg, jr)
+				}
+			}
+		}
 		rep.Cases = len(cases)
 		rep.DistinctNontrivial = len(distinct)
 		rep.Rule = "random typed rule sets over the fact library (1-5 rules; int/uint/float widths, strings, bools, time, nested pointer, slices, maps, top-level variable; arithmetic / bitwise / comparison / logical / negation operators, string and array/map functions, pure, variadic and mutating methods with Forget/Changed, five assignment forms, Retract, Complete; a faulty stream with missing facts, out-of-range selectors, kind mismatches, division by zero and panicking methods); non-trivial = at least two cycles and one firing; distinct by rule text and facts"
@@ -623,6 +646,13 @@ func replayEng(prop string) func(path string) (bool, string, error) {
 		b, err := os.ReadFile(path)
 		if err != nil {
 			return false, "", err
+		}
+		var jr struct {
+			Scenario jsonRun `json:"scenario"`
+		}
+		if json.Unmarshal(b, &jr) == nil && jr.Scenario.Kind == "jsonrun" {
+			msg := runJSONRun(jr.Scenario)
+			return msg != "", msg + "\n" + jr.Scenario.Doc + "\n" + strings.Join(jr.Scenario.Rules, "\n"), nil
 		}
 		var rp struct {
 			Scenario engCaseRec `json:"scenario"`
